@@ -23,26 +23,42 @@ from . import poly as P
 from .poly import ONE, POWER_RULES, Poly, _mono_mul, _needs_power_reduce, power_reduce
 
 
+_CORE_CACHE: dict = {}
+
+
+def core(m):
+    """The part of a monomial made of non-unit symbols (units = symbols known > 0, e.g. scalings, dt)."""
+    c = _CORE_CACHE.get(m)
+    if c is None:
+        U = P.POSITIVE
+        c = tuple(x for x in m if x[0] not in U)
+        if len(_CORE_CACHE) > 2_000_000:
+            _CORE_CACHE.clear()
+        _CORE_CACHE[m] = c
+    return c
+
+
+def _key(m):
+    return (core(m), m)
+
+
 def _divides(lm, m):
-    """Return m / lm if lm | m (all exponents of lm are positive), else None."""
-    out = []
-    lm_i = 0
-    nlm = len(lm)
-    for s, e in m:
-        if lm_i < nlm and lm[lm_i][0] == s:
-            need = lm[lm_i][1]
-            if e < need:
-                return None
-            if e > need:
-                out.append((s, e - need))
-            lm_i += 1
+    """Return m / lm if core(lm) | core(m); exponents of unit symbols are unrestricted (Laurent)."""
+    U = P.POSITIVE
+    d = dict(m)
+    for s, e in lm:
+        have = d.get(s, 0)
+        if s in U:
+            r = have - e
         else:
-            if lm_i < nlm and lm[lm_i][0] > s:
+            if have < e:
                 return None
-            out.append((s, e))
-    if lm_i != nlm:
-        return None
-    return tuple(out)
+            r = have - e
+        if r:
+            d[s] = r
+        else:
+            d.pop(s, None)
+    return tuple(sorted(d.items(), reverse=True))
 
 
 def _addmul(acc: dict, q, f, poly: Poly, skip=None):
@@ -80,7 +96,7 @@ class Hyp:
 
 def _rev_key(m):
     """Monomial key for the reversed symbol ranking (older symbols larger)."""
-    return tuple((-s, e) for s, e in reversed(m))
+    return (tuple((-s, e) for s, e in reversed(core(m))), m)
 
 
 class RuleSet:
@@ -90,12 +106,12 @@ class RuleSet:
         self.reverse = reverse
 
     def lead(self, p: Poly):
-        return max(p.t, key=_rev_key) if self.reverse else max(p.t)
+        return max(p.t, key=_rev_key) if self.reverse else max(p.t, key=_key)
 
     def add(self, lm, hyp: Hyp):
         lc = hyp.poly.t[lm]
         self.rules.append((lm, lc, hyp))
-        for s, _ in lm:
+        for s, _ in core(lm):
             self.by_lead.setdefault(s, []).append((lm, lc, hyp))
 
     def find(self, m):
@@ -119,7 +135,7 @@ class RuleSet:
         steps = 0
         track = combo is not None
         while work:
-            m = max(work, key=_rev_key) if self.reverse else max(work)
+            m = max(work, key=_rev_key) if self.reverse else max(work, key=_key)
             c = work.pop(m)
             hit = self.find(m)
             if hit is None:
@@ -224,8 +240,11 @@ def build(hyps: list[Poly], strategy: str):
         if p.is_zero():
             continue
         lm = rules.lead(p)
-        if lm == ONE or any(e < 0 for _, e in lm):
+        cl = core(lm)
+        if not cl or any(e < 0 for _, e in cl):
             continue
+        if sum(1 for m in p.t if core(m) == cl) > 1:
+            continue  # leading core not unique: orientation would not be terminating
         rules.add(lm, Hyp(p, {i: Poly(d) for i, d in combo.items()}))
     return rules, (subst if strategy == "B" else None)
 
